@@ -351,8 +351,17 @@ fn judge_rewrite(o: &mut Outcome, f: &F, orig: &str, s: &str, desc: &'static str
         } else {
             o.push("oracle", "cmt.payloadeq", format!("cmt.payloadeq {} {} {}", enc_str(&f.ls), enc_str(orig), enc_str(s)), "ok".into(), desc.into(), s.contains('\n'));
             o.push("oracle", "cmt.refines", format!("cmt.refines {} {} {}", enc_str(&f.ls), enc_str(orig), enc_str(s)), "ok".into(), desc.into(), s.contains('\n'));
+            if no_punct(orig) && (f.ls.is_empty() || f.ls.ends_with(' ')) {
+                // `rewriteString_words_partial`: without punctuation the word list itself is preserved
+                o.push("oracle", "cmt.wordseq", format!("cmt.wordseq {} {} {}", enc_str(&f.ls), enc_str(orig), enc_str(s)), "ok".into(), desc.into(), s.contains('\n'));
+            }
         }
     }
+}
+
+/// no punctuation character (general category Po below U+0100) other than a backslash
+fn no_punct(s: &str) -> bool {
+    !s.chars().any(|c| "!\"#%&'*,./:;?@¡§¶·¿".contains(c))
 }
 
 /// Which parts of the universe to run: the integrator calls `cases_c01` / `cases_c02` / `cases_c03`,
